@@ -91,22 +91,37 @@ class SymIdent(str):
         return o
 
 
-class SymPos(object):
-    __slots__ = ('path', 'part', 'delta')
+class IdentLen(int):
+    """len() of an identifier of the analysed statement: the number is the placeholder's, the provenance is what counts."""
+    def __new__(cls, n, path):
+        o = int.__new__(cls, n)
+        o.path = path
+        return o
 
-    def __init__(self, path, part, delta=0):
+
+class SymPos(object):
+    __slots__ = ('path', 'part', 'delta', 'lens')
+
+    def __init__(self, path, part, delta=0, lens=()):
         self.path = path
-        self.part = part      # 'line' | 'col'
+        self.part = part      # 'line' | 'col' | 'end_line' | 'end_col'
         self.delta = delta
+        self.lens = lens      # ((sign, identifier path), ...): lengths of identifiers added to / subtracted from the component
+
+    def shifted(self, sign, b):
+        if isinstance(b, IdentLen):
+            return SymPos(self.path, self.part, self.delta, self.lens + ((sign, b.path),))
+        return SymPos(self.path, self.part, self.delta + sign * b, self.lens)
 
     def __eq__(self, other):
-        return isinstance(other, SymPos) and (self.path, self.part, self.delta) == (other.path, other.part, other.delta)
+        return isinstance(other, SymPos) and (self.path, self.part, self.delta, self.lens) == (other.path, other.part, other.delta, other.lens)
 
     def __hash__(self):
-        return hash((self.path, self.part, self.delta))
+        return hash((self.path, self.part, self.delta, self.lens))
 
     def __repr__(self):
         d = '' if not self.delta else '%+d' % self.delta
+        d += ''.join('%slen(%s)' % ('+' if sg > 0 else '-', p) for sg, p in self.lens)
         return '%s(%s)%s' % (self.part, self.path, d)
 
 
@@ -1006,7 +1021,7 @@ class Interp(object):
         if isinstance(v, SymNode):
             if v.cls is None:
                 raise Uninterpretable('hasattr on an arbitrary node')
-            return a in v.fields or a in v.extra or a in ('lineno', 'col_offset')
+            return a in v.fields or a in v.extra or a in ('lineno', 'col_offset', 'end_lineno', 'end_col_offset')
         if isinstance(v, Obj):
             try:
                 self.getattr(v, a)
@@ -1037,6 +1052,8 @@ class Interp(object):
 
     def nat_len(self, args, kwargs):
         v, = args
+        if isinstance(v, SymIdent) and v.derived is None:
+            return IdentLen(len(v), v.path)
         if isinstance(v, (list, tuple, dict, set, str, bytes)):
             return len(v)
         raise Uninterpretable('len of %r' % (v,))
@@ -1460,9 +1477,9 @@ class Interp(object):
         a, b = self.eval(e.left, f), self.eval(e.right, f)
         if isinstance(e.op, ast.Add):
             if isinstance(a, SymPos) and isinstance(b, int):
-                return SymPos(a.path, a.part, a.delta + b)
+                return a.shifted(1, b)
             if isinstance(a, int) and isinstance(b, SymPos):
-                return SymPos(b.path, b.part, b.delta + a)
+                return b.shifted(1, a)
             if isinstance(a, str) and isinstance(b, str):
                 r = a + b
                 src = a if isinstance(a, SymIdent) else b if isinstance(b, SymIdent) else None
@@ -1473,7 +1490,7 @@ class Interp(object):
                 return a + b
         if isinstance(e.op, ast.Sub):
             if isinstance(a, SymPos) and isinstance(b, int):
-                return SymPos(a.path, a.part, a.delta - b)
+                return a.shifted(-1, b)
             if isinstance(a, (int, float)) and isinstance(b, (int, float)):
                 return a - b
         if isinstance(e.op, ast.Mult) and isinstance(a, (str, int, list)) and isinstance(b, (int, str)):
